@@ -143,8 +143,6 @@ def run_hist(ctx, exe, files, n, prof, stats):
                       "hist_file_text": corpus_text(h, r["i"])}
             new = False
             for sg in sigs:
-                if outside:          # drawn outside both known classes: nothing may be attributed to them
-                    sg = "outside-known-class:" + sg
                 what = ("request %d (%s src%d) of history [%s] on one %s pipeline (-O%d): cached=%s nocache=%s fresh=%s"
                         % (r["i"], r["kind"], r["src"], h["history"], h["pipeline"], h["opt"], r["cached"], r["nocache"], r["fresh"]))
                 if ctx.violation(sg, what, replay) == "new":
